@@ -228,7 +228,7 @@ CLAIMED = {
         technique="interprocedural path-provenance analysis of every file-system creation sink reachable from the public API (backward slices through local callees), RAII pairing of the staging object, dominance of ensure_single_file before the first open + edge-cut reachability inside ensure_single_file (only the None arm of Path::parent may bypass the probes)",
         text="Partial: every file/dir creation reachable from the Memvid API takes the memory path itself, a system-temp path or the atomic staging object; paths derived from the memory "
              "path by with_extension/set_extension/with_file_name/join/push/format! are sidecars and are reported; constructors and doctor call ensure_single_file (eight forbidden names) "
-             "before the first open. ensure_single_file reaches Ok only through the probes or when path.parent() itself is None.",
+             "before the first open. ensure_single_file reaches Ok only through the probes or when path.parent() itself is None. No creation on the caller's own path is reachable from the open entry points (only create brings the file into existence).",
         note="Not decided: what external crates create internally (atomic-write-file's temporary sibling, Tantivy's work directory under the system temp dir). thorough tier analyses the wide "
              "feature configuration, where replay/parallel_segments sidecars are findings.",
         design_ref="DESIGN.md §4 C19"),
